@@ -244,6 +244,15 @@ def judge_c05(ctx, idx, op, impl, mi, ms, reason):
                 f.append(Finding("property", idx, "encoding reports success although not every octet of the complete frame was handed to the writer", expected="ok " + ms, observed=impl, name="C05_fault"))
             elif op[0] == "encw" and "total" in r and int(op[1]) < int(r["total"]):
                 f.append(Finding("property", idx, "encoding reports success although the writer failed after %s octets" % op[1], expected="err", observed=impl, name="C05_fault"))
+    elif op[0] == "encha":
+        ctx.count("encha")
+        for x, y in zip(impl.split(";"), mi.split(";")):
+            if x.startswith("ok") and y == "err":
+                f.append(Finding("property", idx, "`Avp::encode_to` reports success for an AVP the wire cannot carry (a length of 2^24 or more)", expected="err", observed=x, name="C05_range"))
+                break
+            if x.startswith("ok") and x != y:
+                f.append(Finding("property", idx, "`Avp::encode_to` reports success but did not produce the AVP's octets", expected=y, observed=x, name="C05_fault"))
+                break
     elif op[0] == "senc":
         ctx.count("senc_" + impl.split(" ")[0])
         if mi == "err -" and impl != "err -":
